@@ -26,7 +26,10 @@ U == CASE UName = "small1" -> AtomsSmall \cup Containers(AtomsSmall, Hashable(At
                                   Pool == {D(<<VPair(VStr("a"), I)>>), D(<<VPair(VStr("a"), I), VPair(VStr("b"), S)>>),
                                            D(<<VPair(VStr("b"), S)>>), D(<<VPair(VStr("a"), S)>>), D(<<>>),
                                            D(<<VPair(VStr("a"), I), VPair(VStr("b"), Nn)>>), D(<<VPair(I, I)>>),
-                                           D(<<VPair(VStr("c"), VList(<<I>>))>>)}
+                                           D(<<VPair(VStr("c"), VList(<<I>>))>>),
+                                           \* same keys as {a: int, b: str}, inserted in the other order, value types swapped
+                                           D(<<VPair(VStr("b"), I), VPair(VStr("a"), S)>>),
+                                           D(<<VPair(VStr("a"), I), VPair(VStr("b"), I)>>)}
                                   Two == {<<x, y>> : x \in Pool, y \in Pool}
                               IN  Pool \cup {I, Nn, S}
                                   \cup {VList(p) : p \in Two} \cup {VTuple(<<VList(p)>>) : p \in Two}
@@ -34,6 +37,18 @@ U == CASE UName = "small1" -> AtomsSmall \cup Containers(AtomsSmall, Hashable(At
                                   \cup {VList(<<VList(p), I>>) : p \in Two}
                                   \cup {VDict(<<VPair(VStr("x"), p[1]), VPair(VStr("y"), p[2])>>) : p \in Two}
                                   \cup {VSet(<<VTuple(<<I, S>>)>>), VList(<<VList(<<>>), VList(<<I>>)>>)}
+                                  \* keys that are instances of a str subclass
+                                  \cup {VDict(<<VPair(VStrSub("a", "mtfx.shapes.MyStr"), I), VPair(VStrSub("b", "mtfx.shapes.MyStr"), I)>>),
+                                        VDict(<<VPair(VStrSub("a", "mtfx.shapes.MyStr"), I)>>),
+                                        VDict(<<VPair(VStrSub("a", "mtfx.shapes.MyStr"), I), VPair(VStr("b"), S)>>),
+                                        VList(<<VStrSub("a", "mtfx.shapes.MyStr"), VStr("b")>>)}
+                                  \* members of ONE Python class with different MonkeyType types, in sets and as dict keys
+                                  \cup {VSet(<<VTuple(<<I, I>>), VTuple(<<S, S>>)>>), VSet(<<VTuple(<<I>>), VTuple(<<>>)>>),
+                                        VSet(<<VClassObj("mtfx.shapes.A"), VClassObj("mtfx.shapes.B")>>),
+                                        VDict(<<VPair(VTuple(<<I>>), I), VPair(VTuple(<<S>>), I)>>),
+                                        VDDict(<<VPair(VTuple(<<I>>), I), VPair(VTuple(<<S>>), S)>>),
+                                        VDict(<<VPair(VClassObj("mtfx.shapes.A"), I), VPair(VClassObj("int"), I)>>),
+                                        VSet(<<VFunc("function"), VFunc("builtin_function_or_method")>>)}
        \* C06: dicts with 0..12 keys (string, non-string, mixed), nested in every container kind
        [] UName = "wide"   -> LET KS == {VStr("k01"), VStr("k02"), VStr("k03"), VStr("k04"), VStr("k05"), VStr("k06"),
                                          VStr("k07"), VStr("k08"), VStr("k09"), VStr("k10"), VStr("k11"), VStr("k12")}
